@@ -12,7 +12,19 @@ from checks._exec import run_exec, sample
 def run(tier, rep):
     rng = random.Random(seed())
     q = tier == "quick"
-    st = sample(families.gen_st, rng, 50 if q else 500) + sample(families.gen_st_affine, rng, 20 if q else 150) + sample(families.gen_st_flat, rng, 20 if q else 150) + families.st_flat_core()[:: 2 if q else 1]
+    st = sample(families.gen_st, rng, 50 if q else 500) + sample(families.gen_st_affine, rng, 20 if q else 150) + sample(families.gen_st_flat, rng, 20 if q else 150) + families.st_flat_core()[:: 2 if q else 1] + families.st_conv_core()[:: 2 if q else 1]
+    # adding the mapping must not make the compiler fail: a specification that compiles without spacetime and raises with it
+    import execpipe
+    for sp in st:
+        try:
+            execpipe.compile_text(sp["yaml"])
+        except Exception as ex:
+            try:
+                execpipe.compile_text(sp["no_st_yaml"])
+            except Exception:
+                continue
+            rep.violation(dict(kind="compile", clause="Err: adding the spacetime mapping makes the compiler fail (%s: %s)" % (type(ex).__name__, str(ex)[:80]),
+                               spec=sp["yaml"], text="", family=sp["family"], meta={k: v for k, v in sp.items() if k in ("lo", "coeffs")}))
     plain = [dict(sp, yaml=sp["no_st_yaml"], family="spacetime-removed", key=sp["key"] + "#plain") for sp in st]
     acc = [dict(sp, family=sp["family"] + "-spacetime") for sp in families.accel_specs(stripped=False, names=["sigma", "outerspace", "gamma"])]
     for sp in acc:
